@@ -44,7 +44,14 @@ D2(L) == D1(L) \cup {Bin(o, x, y) : o \in ArOps, x \in D1(L), y \in {z \in D1(L)
 Trees2 == {t \in D2(Leaves) : t[1] \in ArOps => Linear1(t[1], t[2], t[3])}
 T2Few == {t \in D2(FewLeaves) : t[1] \in ArOps => Linear1(t[1], t[2], t[3])}
 Trees3 == {Bin(o, x, y) : o \in ArOps, x \in T2Few, y \in T2Few} \cup {Un("neg", x) : x \in T2Few}
-ArTrees == IF Deep THEN Trees2 \cup {t \in Trees3 : t[1] \in ArOps => Linear1(t[1], t[2], t[3])} ELSE Trees2
+\* chains of three operands with every pair of operators, grouped to the left and to the right: what precedence and left
+\* associativity decide ('a / b * c' is '(a / b) * c'); always generated
+ChainLeaves == {Lit("2.0", <<2, 1>>), Lit("0.5", <<1, 2>>), Lit("3", <<3, 1>>), Var("a", <<2, 1>>)}
+LinearT(t) == IF t[1] \in ArOps THEN Linear1(t[1], t[2], t[3]) ELSE TRUE
+Chains3 == {t \in {Bin(o2, Bin(o1, x, y), z) : o1 \in ArOps, o2 \in ArOps, x \in ChainLeaves, y \in ChainLeaves, z \in ChainLeaves}
+                  \cup {Bin(o1, x, Bin(o2, y, z)) : o1 \in ArOps, o2 \in ArOps, x \in ChainLeaves, y \in ChainLeaves, z \in ChainLeaves} :
+               LinearT(t) /\ LinearT(t[2]) /\ LinearT(t[3])}
+ArTrees == Chains3 \cup (IF Deep THEN Trees2 \cup {t \in Trees3 : t[1] \in ArOps => Linear1(t[1], t[2], t[3])} ELSE Trees2)
 
 \* ---- printing with minimal parentheses ---------------------------------------------------------------------
 Prec(t) == CASE t[1] \in {"lit", "var"} -> 5 [] t[1] \in {"neg", "not"} -> 4 [] t[1] \in {"mul", "div"} -> 3 [] t[1] \in {"add", "sub"} -> 2
